@@ -77,9 +77,9 @@ func init() {
 		Required:  []string{"compaction", "crash-reached", "crash-in-compaction", "clear", "restart", "tmp-left-behind", "stash", "settings"},
 		Bound: func(tier string) string {
 			if tier == engine.Thorough {
-				return "L=3: all histories of length <=5 over 15 ops x 2 modes, every crash point of the last op for every one of them; L=10: 8..13 adds then all op sequences of length <=3, x 2 modes + every crash point; stash histories <=5 (crash points for <=2); settings histories <=4 with crash points"
+				return "L=3: all histories of length <=5 over 15 ops x 2 modes, every crash point of the last op for every one of them; L=10: 8..13 adds then all op sequences of length <=3, x 2 modes + every crash point; stash histories <=5 (crash points for <=2); settings histories <=5 incl. restarts (several sessions), crash points for <=3"
 			}
-			return "L=3: all histories of length <=4 over 15 ops x 2 modes, every crash point of the last op for every one of them; L=10: 9..11 adds then all op sequences of length <=2, x 2 modes + every crash point; stash histories <=4 (crash points for <=2); settings histories <=3 with crash points"
+			return "L=3: all histories of length <=4 over 15 ops x 2 modes, every crash point of the last op for every one of them; L=10: 9..11 adds then all op sequences of length <=2, x 2 modes + every crash point; stash histories <=4 (crash points for <=2); settings histories <=4 incl. restarts (several sessions), crash points for <=3"
 		},
 	})
 }
@@ -160,14 +160,16 @@ func enumerate(tier string, emit func(string)) {
 		}
 	})
 	// --- settings
-	cn := 3
+	cn := 4
 	if thorough {
-		cn = 4
+		cn = 5
 	}
 	seqs(cfgOps(), cn, func(h []string) {
 		emit((&spec{K: "cfg", Ops: h}).String())
-		for k := 1; k <= 2; k++ {
-			emit((&spec{K: "cfg", Ops: h, Crash: k}).String())
+		if h[len(h)-1] != "R" && len(h) <= 3 {
+			for k := 1; k <= 2; k++ {
+				emit((&spec{K: "cfg", Ops: h, Crash: k}).String())
+			}
 		}
 	})
 }
@@ -755,6 +757,8 @@ var settings = []setting{
 	{"*print-base*", "10", []string{"16", "10"}},
 	{"*repl-help-box*", "t", []string{"nil"}},
 	{"*print-case*", ":downcase", []string{":upcase"}},
+	{"*print-length*", "nil", []string{"7"}},
+	{"*repl-prompt*", "\"* \"", []string{"\"> \""}},
 }
 
 func cfgOps() []string {
@@ -764,6 +768,7 @@ func cfgOps() []string {
 			ops = append(ops, fmt.Sprintf("V%d=%d", i, j))
 		}
 	}
+	ops = append(ops, "R") // restart: a new session starts from the saved settings
 	return ops
 }
 
@@ -780,6 +785,7 @@ func readSetting(name string) string {
 }
 
 func restoreDefaults() {
+	_ = vfs.Remove("/scratch-defaults/config.lisp") // never load what an earlier restore wrote
 	repl.SetConfigDir("/scratch-defaults")
 	for _, s := range settings {
 		_, _ = evalRepl("(setq " + s.name + " " + s.def + ")")
@@ -793,7 +799,10 @@ func execCfg(sp *spec, res *engine.Result) {
 		vfs.Revive()
 		_, _ = guard(restoreDefaults)
 	}()
-	restoreDefaults()
+	if _, other := guard(restoreDefaults); other != nil {
+		res.Fail("harness:cannot-restore-default-settings", fmt.Sprint(other))
+		return
+	}
 	defaults := map[string]string{}
 	for _, s := range settings {
 		defaults[s.name] = readSetting(s.name)
@@ -806,7 +815,53 @@ func execCfg(sp *spec, res *engine.Result) {
 	want := map[string]string{}
 	last := len(sp.Ops) - 1
 	var kinds []string
+	sessions := 1
+	// restart simulates a new session: defaults, empty modified-variable list, SetConfigDir, then compare
+	restart := func(when string) bool {
+		res.Hit("restart")
+		file := vfs.Snapshot()["/cfg/config.lisp"]
+		if _, other := guard(restoreDefaults); other != nil {
+			res.Fail("harness:cannot-restore-default-settings", fmt.Sprint(other))
+			return false
+		}
+		_, other := guard(func() { repl.SetConfigDir("/cfg") })
+		if other != nil {
+			which := "other"
+			for _, k := range kinds {
+				if k == "*repl-prompt*" {
+					which = "with-repl-prompt-saved"
+				}
+			}
+			res.Fail("cfg restart-panics "+which, fmt.Sprintf("%s %s: %v; config.lisp=%q", sp, when, other, file))
+			return false
+		}
+		for _, s := range settings {
+			exp, set := want[s.name]
+			if !set {
+				exp = defaults[s.name]
+			}
+			if got := readSetting(s.name); got != exp {
+				with := "single-session"
+				if 1 < sessions {
+					with = "set-in-an-earlier-session"
+				}
+				res.Fail(fmt.Sprintf("cfg setting-not-restored var=%s %s", s.name, with),
+					fmt.Sprintf("%s %s: after restart %s is %s, expected %s; config.lisp=%q", sp, when, s.name, got, exp, file))
+			}
+		}
+		sessions++
+		return true
+	}
 	for i, op := range sp.Ops {
+		if op == "R" {
+			if !restart(fmt.Sprintf("at op %d", i)) {
+				return
+			}
+			if 0 < len(res.Failures) {
+				return
+			}
+			continue
+		}
 		var si, vi int
 		_, _ = fmt.Sscanf(op, "V%d=%d", &si, &vi)
 		s := settings[si]
@@ -845,31 +900,9 @@ func execCfg(sp *spec, res *engine.Result) {
 		}
 		want[s.name] = readSetting(s.name)
 	}
-	// restart
-	res.Hit("restart")
-	file := vfs.Snapshot()["/cfg/config.lisp"]
-	restoreDefaults()
-	_, other = guard(func() { repl.SetConfigDir("/cfg") })
-	if other != nil {
-		res.Fail("cfg restart-panics", fmt.Sprintf("%s: %v; config.lisp=%q", sp, other, file))
-		return
-	}
-	for _, s := range settings {
-		exp, set := want[s.name]
-		if !set {
-			exp = defaults[s.name]
-		}
-		if got := readSetting(s.name); got != exp {
-			with := "alone"
-			for _, k := range kinds {
-				if k == "*print-base*" && s.name != "*print-base*" {
-					with = "with-print-base-changed"
-				}
-			}
-			res.Fail(fmt.Sprintf("cfg setting-not-restored var=%s %s", s.name, with),
-				fmt.Sprintf("%s: after restart %s is %s, expected %s; config.lisp=%q", sp, s.name, got, exp, file))
-		}
+	if sp.Ops[last] != "R" {
+		restart("at the end")
 	}
 	res.Nontrivial = true
-	res.Outcome = file
+	res.Outcome = vfs.Snapshot()["/cfg/config.lisp"]
 }
